@@ -159,6 +159,9 @@ def process_object(data, dic):
             if "{" in data:
                 stem, indices = data.split("{")
                 start, stop = indices.rstrip("}").split(":")
+                if int(stop) <= int(start):
+                    # an empty range does not refer to any object
+                    raise KeyError(data)
                 for i in range(int(start), int(stop)):
                     obj = dic[stem + str(i)]
             else:
